@@ -70,8 +70,8 @@ class LxmlEventHandler(XmlHandler):
                     self.queue,
                     self.objects,
                     element.tag,
-                    element.text,
-                    element.tail,
+                    get_text(element),
+                    get_tail(element),
                 )
                 element.clear()
             elif event == EventType.START_NS:
@@ -85,3 +85,49 @@ class LxmlEventHandler(XmlHandler):
             return None
 
         return self.objects[-1][1] if self.objects else None
+
+
+def get_text(element: Any) -> str | None:
+    """Return the character data before the first child element.
+
+    Comments and processing instructions split the character data
+    into the element text and the tails of these nodes.
+
+    Args:
+        element: The lxml element
+
+    Returns:
+        The whole text content or None
+    """
+    result = element.text
+    for child in element.iterchildren():
+        if isinstance(child.tag, str):
+            break
+
+        if child.tail is not None:
+            result = (result or "") + child.tail
+
+    return result
+
+
+def get_tail(element: Any) -> str | None:
+    """Return the character data between the element and the next element.
+
+    Comments and processing instructions split the character data
+    into the element tail and the tails of these nodes.
+
+    Args:
+        element: The lxml element
+
+    Returns:
+        The whole tail content or None
+    """
+    result = element.tail
+    for sibling in element.itersiblings():
+        if isinstance(sibling.tag, str):
+            break
+
+        if sibling.tail is not None:
+            result = (result or "") + sibling.tail
+
+    return result
